@@ -790,7 +790,7 @@ def _one_config(args):
             r = agg.setdefault(nm, dict(valid=0, invalid=[], unknown=[], secs=0.0))
             if (r['invalid'] and not nm.startswith('CANARY')) or len(r['unknown']) >= 2:
                 continue
-            if time.time() - t0 > 400:
+            if time.time() - t0 > 900:
                 r['unknown'].append('not attempted: the time budget of this configuration was used up (an instance that is not proved is never counted as discharged)')
                 continue
             v, model, secs = prove(pc, goal, 4000 if nm.startswith('CANARY') else 30000)
